@@ -2,6 +2,7 @@ import GdVerif.Run.Reader
 import GdVerif.Run.Valve
 import GdVerif.Run.GenValve
 import GdVerif.Run.ValveFaults
+import GdVerif.Run.TheShipFaults
 import GdVerif.Run.Gs1
 import GdVerif.Run.GenGs1
 import GdVerif.Run.Gs1Faults
@@ -52,6 +53,7 @@ def allEntries : List (String × (List String → String)) := List.flatten [
   readerEntries,
   valveEntries,
   valveFaultEntries,
+  theShipFaultEntries,
   masterEntries,
   settingsEntries,
   viewEntries,
